@@ -200,3 +200,149 @@ Proof.
     + constructor; [exact ex_T_wf|]. constructor; [exact ex_T_wf|constructor].
   - intros s t [<-|[]] [<-|[<-|[]]]; reflexivity.
 Qed.
+
+(* ================================================================================================================
+   TEXT FORMATS: the premise H_ext DISCHARGED for CSV, tab-delimited text and NDJSON.
+   Model/Csv.v      csv_write d rows = the characters csv.writer(f, delimiter=d) (excel dialect) writes for the rows;
+                    csv_read d file = list(csv.reader(...)) over the file as CSVUnpacker opens it (mode r: universal
+                    newlines), Ok rows or the exception; csv_read_raw = the same over a file opened with newline=''.
+   Model/Ndjson.v   ndjson_write ea docs = one json.dumps(dict, ensure_ascii=ea) per line; ndjson_read file = the
+                    json.loads of every line as JSONUnpacker delivers them (Done docs / Raise e).
+   Proofs/CsvP.v, Proofs/NdjsonP.v, Proofs/TextFormatsP.v hold the proofs.  Both models are tied to CPython and to the
+   library on every run by the second engine of this property (harness/c03b.py, Judge/JC03b.v).
+   ================================================================================================================ *)
+Require SR.Model.Csv SR.Model.Ndjson SR.Proofs.CsvP SR.Proofs.NdjsonP.
+Require Import SR.Proofs.TextFormatsP.
+
+(* CSV: for EVERY delimiter other than the quote character, CR and LF, and EVERY list of rows (no rows, rows without
+   cells, a single empty cell, ragged rows) whose cells are any code points except the carriage return and hold at most
+   csv.field_size_limit() = 131072 characters, the library's reader returns exactly the rows the writer was given.
+   delim_ok d  = negb (d =? 34) && negb (d =? 13) && negb (d =? 10)
+   table_ok T  = forallb (forallb (fun c => forallb (fun x => negb (x =? 13)) c && (N.of_nat (length c) <=? 131072))) T *)
+Theorem C03_csv_roundtrip : forall (delim : N) (T : list (list Csv.text)),
+  Csv.delim_ok delim = true -> Csv.table_ok T = true -> Csv.csv_read delim (Csv.csv_write delim T) = Ok T.
+Proof. exact CsvP.csv_roundtrip. Qed.
+Print Assumptions C03_csv_roundtrip.
+
+(* the same file read the way the csv documentation asks for (newline=''): carriage returns come back too *)
+Theorem C03_csv_roundtrip_raw : forall (delim : N) (T : list (list Csv.text)),
+  Csv.delim_ok delim = true -> Csv.table_ok_raw T = true -> Csv.csv_read_raw delim (Csv.csv_write delim T) = Ok T.
+Proof. exact CsvP.csv_roundtrip_raw. Qed.
+Print Assumptions C03_csv_roundtrip_raw.
+
+(* outside the domain, finding 2: CSVUnpacker opens the file in mode r, so a carriage return in a cell arrives as a
+   line feed and CR LF as ONE line feed; with newline='' the same file gives the cell back *)
+Theorem C03_refuted_2 :
+  Csv.csv_read Csv.COMMA (Csv.csv_write Csv.COMMA [[[97; 13; 98]]]%N) = Ok [[[97; 10; 98]]]%N
+  /\ Csv.csv_read Csv.COMMA (Csv.csv_write Csv.COMMA [[[97; 13; 10; 98]]]%N) = Ok [[[97; 10; 98]]]%N
+  /\ Csv.csv_read_raw Csv.COMMA (Csv.csv_write Csv.COMMA [[[97; 13; 98]]]%N) = Ok [[[97; 13; 98]]]%N.
+Proof. exact CsvP.csv_cr_lost. Qed.
+Print Assumptions C03_refuted_2.
+
+(* delim_ok is exact: each of the three excluded delimiters loses a table even with newline='' *)
+Theorem C03_csv_delimiters_exact :
+  Csv.csv_read_raw 34 (Csv.csv_write 34 [[[97; 34]; [98]]]%N) <> Ok [[[97; 34]; [98]]]%N
+  /\ Csv.csv_read_raw 13 (Csv.csv_write 13 [[[97]; [98]]]%N) <> Ok [[[97]; [98]]]%N
+  /\ Csv.csv_read_raw 10 (Csv.csv_write 10 [[[97]; [98]]]%N) <> Ok [[[97]; [98]]]%N.
+Proof. exact CsvP.csv_delim_refuted. Qed.
+Print Assumptions C03_csv_delimiters_exact.
+
+(* NDJSON: for both values of ensure_ascii and EVERY list of dicts with distinct keys, json.loads of every written
+   line returns the dict.  With ensure_ascii the keys and values are code points (<= 0x10FFFF) without a high
+   surrogate directly followed by a low surrogate; without it they are any text (CR, LF, U+0085, U+2028, U+2029,
+   non-BMP and lone surrogate code points included).
+   doc_ok ea d = distinct (map fst d) && forallb (fun kv => text_ok ea (fst kv) && text_ok ea (snd kv)) d
+   text_ok ea s = if ea then forallb (fun c => c <=? 1114111) s && no_pair s else true *)
+Theorem C03_ndjson_roundtrip : forall (ea : bool) (docs : list Ndjson.doc),
+  forallb (Ndjson.doc_ok ea) docs = true -> Ndjson.ndjson_read (Ndjson.ndjson_write ea docs) = Ndjson.Done docs.
+Proof. exact NdjsonP.ndjson_roundtrip. Qed.
+Print Assumptions C03_ndjson_roundtrip.
+
+(* text_ok is exact under ensure_ascii: two code points, a high and a low surrogate, come back as one *)
+Theorem C03_ndjson_surrogates_exact :
+  Ndjson.ndjson_read (Ndjson.ndjson_write true [[([97], [55296; 56320])]]%N) = Ndjson.Done [[([97], [65536])]]%N
+  /\ Ndjson.ndjson_read (Ndjson.ndjson_write false [[([97], [55296; 56320])]]%N) = Ndjson.Done [[([97], [55296; 56320])]]%N
+  /\ Ndjson.ndjson_read (Ndjson.ndjson_write true [[([97], [55296; 97; 56320])]]%N) = Ndjson.Done [[([97], [55296; 97; 56320])]]%N.
+Proof. exact NdjsonP.ndjson_pair_joined. Qed.
+Print Assumptions C03_ndjson_surrogates_exact.
+
+(* The premise of C03_facade, PROVED for the three text formats: what the unpacker delivers for the file the
+   harness's writer wrote for W is the stored table.
+   text_storable ea f W: CSV / TAB = table_ok (header row :: data rows); NDJSON = text_ok ea of every name and cell *)
+Theorem C03_text_premise : forall (ea : bool) (f : fmt) (W : workbook),
+  text_format f = true -> storable f W = true -> wf_workbook W -> text_storable ea f W = true ->
+  text_parse f (text_write ea f W) = phys f W.
+Proof. exact text_parse_write. Qed.
+Print Assumptions C03_text_premise.
+
+(* the facade theorem for CSV, TAB and NDJSON with NO premise about a parser *)
+Theorem C03_facade_text : forall (ea : bool) (f : fmt) (W : workbook),
+  text_format f = true -> storable f W = true -> wf_workbook W -> text_storable ea f W = true ->
+  open_read text_parse f (text_write ea f W) (headers W) = Ok (expected W).
+Proof. exact facade_text. Qed.
+Print Assumptions C03_facade_text.
+
+Corollary C03_facade_csv : forall (W : workbook),
+  storable F_CSV W = true -> wf_workbook W -> text_storable true F_CSV W = true ->
+  open_read text_parse F_CSV (text_write true F_CSV W) (headers W) = Ok (expected W).
+Proof. intros W. exact (facade_text true F_CSV W eq_refl). Qed.
+Print Assumptions C03_facade_csv.
+
+Corollary C03_facade_tab : forall (W : workbook),
+  storable F_TAB W = true -> wf_workbook W -> text_storable true F_TAB W = true ->
+  open_read text_parse F_TAB (text_write true F_TAB W) (headers W) = Ok (expected W).
+Proof. intros W. exact (facade_text true F_TAB W eq_refl). Qed.
+Print Assumptions C03_facade_tab.
+
+Corollary C03_facade_ndjson : forall (ea : bool) (W : workbook),
+  storable F_NDJSON W = true -> wf_workbook W -> text_storable ea F_NDJSON W = true ->
+  open_read text_parse F_NDJSON (text_write ea F_NDJSON W) (headers W) = Ok (expected W).
+Proof. intros ea W. exact (facade_text ea F_NDJSON W eq_refl). Qed.
+Print Assumptions C03_facade_ndjson.
+
+(* the three text formats agree with each other (no premise) ... *)
+Theorem C03_agree_text : forall (ea ea' : bool) (f g : fmt) (W : workbook),
+  text_format f = true -> text_format g = true -> storable f W = true -> storable g W = true -> wf_workbook W ->
+  text_storable ea f W = true -> text_storable ea' g W = true ->
+  open_read text_parse f (text_write ea f W) (headers W) = open_read text_parse g (text_write ea' g W) (headers W).
+Proof. exact agree_text. Qed.
+Print Assumptions C03_agree_text.
+
+(* ... and with every other third-party format, whose own premise stays assumed *)
+Theorem C03_agree_text_ext : forall (image : Type) (ext_write : fmt -> workbook -> image) (ext_parse : fmt -> image -> content),
+  (forall f W, third_party f = true -> storable f W = true -> ext_parse f (ext_write f W) = phys f W) ->
+  forall ea f g W, text_format f = true -> third_party g = true ->
+    storable f W = true -> storable g W = true -> wf_workbook W -> text_storable ea f W = true ->
+    open_read text_parse f (text_write ea f W) (headers W) = open_read ext_parse g (ext_write g W) (headers W).
+Proof. exact agree_text_ext. Qed.
+Print Assumptions C03_agree_text_ext.
+
+(* ---- non-vacuity of the text-format theorems ---- *)
+Example C03_example_csv_domain :
+  Csv.delim_ok Csv.COMMA = true /\ Csv.delim_ok Csv.TAB = true /\ Csv.delim_ok 32 = true /\ Csv.delim_ok 128512 = true
+  /\ Csv.delim_ok 34 = false /\ Csv.delim_ok 13 = false /\ Csv.delim_ok 10 = false
+  (* no rows; a row without cells; one empty cell; ragged rows; quote, delimiter, LF, blanks, NUL, U+2028, non-BMP *)
+  /\ Csv.table_ok [] = true /\ Csv.table_ok [[]; [[]]; [[]; []]]%N = true
+  /\ Csv.table_ok [[[34; 44; 10]; [32; 97; 32]]; [[0; 8232; 128512]]]%N = true
+  /\ Csv.table_ok [[[97; 13]]]%N = false /\ Csv.table_ok_raw [[[97; 13]]]%N = true
+  /\ Csv.csv_write Csv.COMMA [[]; [[]]; [[]; []]; [[34; 44; 10]; [32; 97; 32]]]%N
+     = [13; 10; 34; 34; 13; 10; 44; 13; 10; 34; 34; 34; 44; 10; 34; 44; 32; 97; 32; 13; 10]%N.
+Proof. repeat split; vm_compute; reflexivity. Qed.
+
+Example C03_example_ndjson_domain :
+  Ndjson.doc_ok true [([97], [34; 92; 10; 13; 133; 8232; 8233; 128512; 55296]); ([], [])]%N = true
+  /\ Ndjson.doc_ok false [([97], [55296; 56320])]%N = true
+  /\ Ndjson.doc_ok true [([97], [55296; 56320])]%N = false
+  /\ Ndjson.doc_ok true [([97], [49]); ([97], [50])]%N = false
+  /\ Ndjson.ndjson_write true [[([97], [34; 233; 128512])]; []]%N
+     = [123; 34; 97; 34; 58; 32; 34; 92; 34; 92; 117; 48; 48; 101; 57; 92; 117; 100; 56; 51; 100; 92; 117; 100; 101; 48; 48;
+        34; 125; 10; 123; 125; 10]%N.
+Proof. repeat split; vm_compute; reflexivity. Qed.
+
+(* a table with a quote, a delimiter, a line feed, blanks, an empty cell, non-ASCII and non-BMP text is in the
+   domain of all three formats *)
+Example C03_example_text_formats :
+  wf_workbook [([], ex_text_T)]
+  /\ text_storable true F_CSV [([], ex_text_T)] = true /\ text_storable true F_TAB [([], ex_text_T)] = true
+  /\ text_storable true F_NDJSON [([], ex_text_T)] = true /\ text_storable false F_NDJSON [([], ex_text_T)] = true.
+Proof. exact ex_text_T_ok. Qed.
